@@ -331,10 +331,9 @@ class Capture(logging.Handler):
             self.times.append(env.fpga_us())
 
 
-def watchdog(res, tier):
+def watchdog(res, tier, T=20000):
     from robotpy_ext.misc.simple_watchdog import SimpleWatchdog
 
-    T = 20000
     ops = [("adv", 0), ("adv", T - 1), ("adv", T), ("adv", T + 1), ("adv", 1000000), ("adv", 1000001), ("reset",), ("epoch",), ("expired",), ("print",)]
     lg = logging.getLogger("simple_watchdog")
     cap = Capture()
@@ -385,7 +384,7 @@ def watchdog(res, tier):
         return key, viol
 
     try:
-        bfs("SimpleWatchdog", ops, run, res, 7 if tier == "quick" else 9, 3 if tier == "quick" else 4)
+        bfs(f"SimpleWatchdog({T}us)", ops, run, res, (7 if tier == "quick" else 9) if T == 20000 else 5, 3 if tier == "quick" else 4)
     finally:
         lg.removeHandler(cap)
         logging.disable(logging.CRITICAL)
@@ -404,6 +403,7 @@ def main(tier, seed):
         periodic_filter(res, tier, p)
     toggle_pair(res, tier, 3)
     watchdog(res, tier)
+    watchdog(res, tier, T=1009)  # a whole-microsecond timeout whose float product with 1e6 falls just below the integer
     rule = (
         "explicit-state BFS with replay on the real objects, state = (monitor state, implementation fields with clocks made relative and clamped): "
         "Toggle without debounce: ops (level, accessor in get/on/off/bool), exact edge-detector model, closed; Toggle with debounce (periods 2, 3 ticks): "
